@@ -14,6 +14,10 @@ def main() -> int:
         from sim import coordinator as co
 
         return co.replay_file(args[1])
+    if args[0] == "selftest-determinism":
+        from sim import selftest_determinism
+
+        return selftest_determinism.main()
     prop = args[0]
     tier = os.environ.get("VERIF_TIER", "quick")
     if "--tier" in args:
